@@ -1044,6 +1044,12 @@ def last_block_header_child(ast: AST) -> AST | None:
                        ExceptHandler, match_case):  # Try, TryStar open blocks but don't have children
         return None
 
+    if ast_cls is ClassDef and (bases := ast.bases) and (keywords := ast.keywords):  # Starred bases can follow keywords
+        if ((base := bases[-1]).lineno, base.col_offset) > ((keyword := keywords[-1]).lineno, keyword.col_offset):
+            return base
+
+        return keyword
+
     for field in reversed(AST_FIELDS[ast_cls]):
         if field in ('body', 'orelse', 'finalbody', 'handlers', 'cases') or not (child := getattr(ast, field, None)):
             continue
